@@ -148,11 +148,22 @@ class SinkBroken(Exception):
     pass
 
 
+def broken_pipe_error(flavor=None):
+    """The ways a stream may say "the reader has gone": all of them are BrokenPipeError to Python 3."""
+    if flavor == 'noerrno':
+        return BrokenPipeError()                 # raised by an adaptor / wrapper object: no errno at all
+    if flavor == 'eshutdown':
+        import errno
+        return OSError(errno.ESHUTDOWN, os.strerror(errno.ESHUTDOWN))     # the constructor maps ESHUTDOWN to BrokenPipeError
+    return BrokenPipeError(32, 'Broken pipe')
+
+
 class SimTextSink(object):
     """Text sink that raises BrokenPipeError from the k-th write() call on (k counted from 0),
     and/or from flush()/close()."""
 
-    def __init__(self, break_at_call=None, break_on_flush=False, log=None, name='sink'):
+    def __init__(self, break_at_call=None, break_on_flush=False, log=None, name='sink', flavor=None):
+        self.flavor = flavor
         self.parts = []
         self.calls = 0
         self.break_at_call = break_at_call
@@ -173,7 +184,7 @@ class SimTextSink(object):
             self.broken_seen += 1
             if self.log is not None:
                 self.log.add(self.name, 'write!', k)
-            raise BrokenPipeError(32, 'Broken pipe')
+            raise broken_pipe_error(self.flavor)
         self.parts.append(s)
         if self.log is not None:
             self.log.add(self.name, 'write', k, len(s))
@@ -185,7 +196,7 @@ class SimTextSink(object):
             self.log.add(self.name, 'flush')
         if self.break_on_flush or (self.break_at_call is not None and self.calls > self.break_at_call):
             self.broken_seen += 1
-            raise BrokenPipeError(32, 'Broken pipe')
+            raise broken_pipe_error(self.flavor)
 
     def close(self):
         self.closed = True
@@ -200,8 +211,9 @@ class SimRawSink(io.RawIOBase):
     """Raw byte sink accepting `budget` bytes, then raising BrokenPipeError on every further
     write (the reader end of a pipe has gone). budget=None: never breaks."""
 
-    def __init__(self, budget=None, log=None, name='rawsink', atomic=False, errno_code=None):
+    def __init__(self, budget=None, log=None, name='rawsink', atomic=False, errno_code=None, flavor=None):
         io.RawIOBase.__init__(self)
+        self.flavor = flavor
         self.errno_code = errno_code     # None: the reader is gone (EPIPE); else another device error, e.g. ENOSPC, EIO
         self.atomic = atomic      # True: a write that does not fit entirely is refused (the reader went away between two writes)
         self.budget = budget
@@ -229,7 +241,7 @@ class SimRawSink(io.RawIOBase):
                 self.log.add(self.name, 'write!', len(b))
             if self.errno_code is not None:
                 raise OSError(self.errno_code, os.strerror(self.errno_code))
-            raise BrokenPipeError(32, 'Broken pipe')
+            raise broken_pipe_error(self.flavor)
         k = min(room, len(b))
         self.accepted += b[:k]
         if self.log is not None:
